@@ -262,6 +262,10 @@ func (c *SpecCtx) ident(name string) Val {
 		return Val{S: "!nil"}
 	case "nr":
 		return specVal(c.st.nr, "Int")
+	case "IFACE_LE":
+		return specVal(x.byteOrderConst(true), "Int")
+	case "IFACE_BE":
+		return specVal(x.byteOrderConst(false), "Int")
 	case "maxint":
 		return specVal("9223372036854775807", "Int")
 	}
